@@ -465,3 +465,90 @@ def logsumexp_shift(ctx: Ctx):
         ctx.ob("LSE:shift", False if has_max else None, where,
                f"rows are shifted by {show(S)[:60]}, which is not the maximum of the row's own segment: segments far below that bound "
                "underflow to -inf" if has_max else f"shift {show(S)[:60]} not recognised", lhs=S)
+
+
+SEGMENT_REDUCERS = {
+    # function -> name of the parameter that holds the segment description (None: the segments always exist)
+    "lcm.discrete_problem._solve_discrete_problem_no_shocks": "choice_segments",
+    "lcm.discrete_problem._calculate_emax_extreme_value_shocks": "choice_segments",
+    "lcm.discrete_problem._segment_extreme_value_emax_over_first_axis": None,
+    "lcm.discrete_problem._segment_logsumexp": None,
+    "lcm.argmax.segment_argmax": None,
+}
+
+
+@rule("R14.SEGPATH")
+def segment_paths(ctx: Ctx):
+    """Whenever rows are grouped into segments (one segment per state, of UNEQUAL sizes in general), every value a
+    segment reducer returns is computed by a segment operation (jax.ops.segment_max / segment_sum or another reducer
+    of this table) on every path.  A path that reduces blocks of a reshaped array instead is only right when all
+    segments have the same size, which nothing guarantees."""
+    prog = ctx.prog
+
+    def is_none_test(c, pname, q):
+        """(is a test of `pname` against None, value of the test when pname IS None)"""
+        if c[0] == "cmp" and len(c[1]) == 1 and c[1][0] in ("is", "is not", "==", "!=") and len(c[2]) == 2 \
+                and ("param", q, pname) in c[2] and ("const", None) in c[2]:
+            return True, c[1][0] in ("is", "==")
+        if c[0] == "not":
+            a, b = is_none_test(c[1], pname, q)
+            return a, (not b if a else b)
+        if c[0] == "unop" and c[1] == "not":
+            a, b = is_none_test(c[2], pname, q)
+            return a, (not b if a else b)
+        return False, None
+
+    def arms(t, path):
+        if is_term(t) and t[0] == "retphi":
+            # several return statements: [(path conditions, value)]; a condition `("not", c)` is c being false
+            for conds, v in t[1]:
+                yield from arms(v, path + tuple((c, True) for c in conds))
+        elif is_term(t) and t[0] in ("phi", "ifexp"):
+            yield from arms(t[2], path + ((t[1], True),))
+            yield from arms(t[3], path + ((t[1], False),))
+        else:
+            yield path, t
+
+    def reduces_by_segment(t):
+        for x in walk(t):
+            n = callee_name(x) if x[0] == "call" else None
+            if n and (n.startswith("jax.ops.segment_") or n in SEGMENT_REDUCERS):
+                return True
+            if x[0] == "op" and isinstance(x[1], str) and x[1].startswith("segment_"):
+                return True
+        return False
+
+    for q, pname in SEGMENT_REDUCERS.items():
+        key = f"SEGPATH:{q.removeprefix('lcm.')}"
+        if q not in prog.funcs:
+            ctx.undecided(key, f"{q} not found (anchor vanished)")
+            continue
+        fr = prog.frame(q)
+        where = prog.node_where(fr.module, prog.funcs[q].node)
+        if fr.ret is None or fr.unsupported:
+            ctx.undecided(key, "return value not analysable", where)
+            continue
+        bad, n_arms = None, 0
+        for path, t in arms(fr.ret, ()):
+            absent = False
+            for c, val in path:
+                if pname is None:
+                    continue
+                is_t, when_none = is_none_test(c, pname, q)
+                if is_t and val == when_none:
+                    absent = True  # the path on which there are no segments
+            if absent:
+                continue
+            n_arms += 1
+            if not reduces_by_segment(t):
+                bad = (path, t)
+        ctx.count("segment_reducers")
+        if bad is not None:
+            conds = " and ".join(("" if v else "not ") + show(c)[:50] for c, v in bad[0]) or "always"
+            ctx.ob(key, False, where,
+                   f"on the path [{conds}] the result is not computed by a segment operation ({show(bad[1])[:90]}): rows are reduced "
+                   "in blocks, which equals the reduction per segment only if all segments have the same size", lhs=show(bad[1])[:300])
+        else:
+            ctx.ob(key, True if n_arms else None, where,
+                   f"all {n_arms} result path(s) with segments go through a segment operation" if n_arms else "no result path found")
+    ctx.floor("segment_reducers", 4)
